@@ -191,6 +191,7 @@ func checkC09(c *Ctx, r *Report) {
 
 	r.Rule("R09c", "every reflect.Value.String() call is dominated by a Kind() == reflect.String test on the same value", 3)
 	valueStringRule(c, r, "R09c")
+	keyedAccessorRule(c, r)
 	// R09d: comparators of the sorts that establish an order
 	r.Rule("R09d", "every sort.Slice comparator on the claimed paths has the form key(x[i]) < key(x[j]) with one key function for both sides, and the key is the element itself or mapKeyString(element): a key function that maps two map keys to one value leaves their order to the runtime", 2)
 	for fn := range claimed {
@@ -977,4 +978,65 @@ func injectiveSortKey(n *nf) string {
 		}
 	}
 	return ""
+}
+
+// keyedAccessorRule (R09e): R09a classifies a loop over a map as independent of the enumeration order when its body
+// reaches the destination only through fields.get / set / del with the loop's own key — trusting that those accessors
+// touch nothing but the entry of that key. The trust is an obligation of its own: in their bodies every write through
+// the receiver is a map update or delete under the key parameter, or the creation of the map itself. An accessor that
+// also records the order of its calls (a list of names appended to on every new key) turns every unsorted loop that
+// uses it — cfgSub.cpy copies a dictionary with `range` — into a source of enumeration order.
+func keyedAccessorRule(c *Ctx, r *Report) {
+	r.Rule("R09e", "the keyed accessors of a node (fields.get, set, del) write nothing but the map entry of their key argument (and the map itself when it is created): no effect of theirs depends on the order of the calls", 3)
+	for _, mname := range []string{"get", "set", "del"} {
+		fn := c.Method("", "fields", mname)
+		name := c.FnName(fn)
+		if len(fn.Params) < 2 {
+			r.add("R09e", name, "effects keyed", c.Pos(fn.Pos()), Undecided, true, "accessor without a key parameter")
+			continue
+		}
+		recv, key := fn.Params[0], fn.Params[1]
+		bad := ""
+		derivesFromRecv := func(v ssa.Value) bool {
+			p, ok := AccessPath(v)
+			return ok && (p == recv.Name() || strings.HasPrefix(p, recv.Name()+"."))
+		}
+		Instrs(fn, false, func(in ssa.Instruction) {
+			switch x := in.(type) {
+			case *ssa.MapUpdate:
+				if x.Key != ssa.Value(key) {
+					bad = "a map entry is written under a key that is not the key argument at " + c.Pos(x.Pos())
+				}
+			case *ssa.Store:
+				if !derivesFromRecv(x.Addr) {
+					return
+				}
+				if _, isMake := x.Val.(*ssa.MakeMap); isMake {
+					return
+				}
+				bad = "a field of the node is written at " + c.Pos(x.Pos()) + " (" + x.Val.String() + "): state besides the entry of the key"
+			case ssa.CallInstruction:
+				if b := BuiltinName(x); b == "delete" {
+					if x.Common().Args[1] != ssa.Value(key) {
+						bad = "delete under a key that is not the key argument at " + c.Pos(x.Pos())
+					}
+					return
+				} else if b != "" {
+					if b == "append" || b == "copy" {
+						bad = "builtin " + b + " at " + c.Pos(x.Pos()) + ": a list kept next to the map records the order of the calls"
+					}
+					return
+				}
+				if g := x.Common().StaticCallee(); g != nil && g.Pkg == fn.Pkg {
+					for _, a := range x.Common().Args {
+						if derivesFromRecv(a) {
+							bad = "the node is handed to " + g.Name() + " at " + c.Pos(x.Pos()) + ": effects outside the accessor are not keyed by construction"
+						}
+					}
+				}
+			}
+		})
+		r.Check(bad == "", "R09e", name, "effects keyed", c.Pos(fn.Pos()), "map update/delete under the key argument only",
+			"R09a trusts this accessor to touch only the entry of its key, but "+bad+" — loops that enumerate a map in runtime order and store through it (the copy of a dictionary) then leave a trace of that order")
+	}
 }
